@@ -163,6 +163,7 @@ func roundTripField(c *fw.Ctx, stream string, k kind, tag int, v wval, fast bool
 		ops := []decOp{{name: "tag"}, {name: k.decOp}}
 		rq, rp, results, offsets := runDecProgram(fast, in, ops)
 		c.ModelCmp(stream, rq, rp, stripAlloc)
+		reportHeld(c, stream)
 		wantTag := fmt.Sprintf("t%d/%d", tag, k.wt)
 		switch {
 		case len(results) < 2 || !results[0].ok || results[0].item != wantTag:
@@ -183,6 +184,66 @@ func roundTripField(c *fw.Ctx, stream string, k kind, tag int, v wval, fast bool
 	if c.Rng.Intn(2000) == 0 {
 		c.Sample(map[string]interface{}{"stream": stream, "case": trunc(desc, 160), "bytes": trunc(hex.EncodeToString(buf), 80)})
 	}
+}
+
+// roundTripSequence writes several fields (kinds repeat, so two lists of one packed kind follow each
+// other) into one buffer of exactly the predicted total size and reads them back in order with ONE
+// decoder: every value must be the one written, the cursor must end at the predicted size, and every
+// value handed out must still read the same after the later calls (runDecProgram re-reads them).
+func roundTripSequence(c *fw.Ctx, kinds []kind, fast bool) {
+	const stream = "sequence"
+	var eops []encOp
+	var dops []decOp
+	var want []string
+	predicted := 0
+	var names []string
+	for _, k := range kinds {
+		tag := genTag(c.Rng)
+		v := k.gen(c.Rng)
+		if k.packed && len(v.us) == 0 {
+			continue // an empty packed list writes nothing: there is no field to read back
+		}
+		eops = append(eops, k.enc(tag, v))
+		dops = append(dops, decOp{name: "tag"}, decOp{name: k.decOp})
+		want = append(want, fmt.Sprintf("t%d/%d", tag, k.wt), k.item(v))
+		predicted += csproto.SizeOfTagKey(tag) + k.size(v)
+		names = append(names, k.name)
+	}
+	if len(eops) == 0 {
+		return
+	}
+	desc := fmt.Sprintf("fast=%v kinds=%v", fast, names)
+	c.Journal("C01 sequence " + desc)
+	req, reply, panicked, buf, off := runEncProgram(predicted, eops)
+	c.Model(stream, req, reply)
+	outcome := "ok"
+	if panicked || off != predicted {
+		outcome = "size-mismatch"
+		c.Violate(fw.Violation{Stream: stream, Signature: "encode/sequence/size", What: "a sequence of fields did not fill the buffer sized from the size helpers exactly",
+			Input: trunc(req, 400), Expected: fmt.Sprint(predicted), Got: fmt.Sprintf("%d panicked=%v", off, panicked)})
+	} else {
+		rq, rp, results, offsets := runDecProgram(fast, buf, dops)
+		c.ModelCmp(stream, rq, rp, stripAlloc)
+		reportHeld(c, stream)
+		for i := range dops {
+			if i >= len(results) || !results[i].ok || results[i].item != want[i] {
+				outcome = "value-mismatch"
+				got := "-"
+				if i < len(results) {
+					got = results[i].reply
+				}
+				c.Violate(fw.Violation{Stream: stream, Signature: "decode/sequence/" + dops[i].name, What: "reading a sequence of fields back did not return what was written",
+					Input: trunc(req, 400), Expected: trunc(want[i], 200), Got: trunc(got, 200)})
+				break
+			}
+		}
+		if outcome == "ok" && offsets[len(offsets)-1] != predicted {
+			outcome = "consumed-mismatch"
+			c.Violate(fw.Violation{Stream: stream, Signature: "decode/sequence/consumed", What: "reading a sequence of fields back did not consume exactly the bytes written",
+				Input: trunc(req, 400), Expected: fmt.Sprint(predicted), Got: fmt.Sprint(offsets[len(offsets)-1])})
+		}
+	}
+	c.Count(stream, req, outcome, predicted, len(eops) > 1)
 }
 
 func trunc(s string, n int) string {
@@ -254,11 +315,31 @@ func runC01(c *fw.Ctx) int {
 			c.FlushModel()
 		}
 	}
+	// sequences of fields through one encoder and one decoder; every kind twice in a row at least once
+	all := append(append([]kind{}, sk...), pk...)
+	for _, k := range all {
+		for _, fast := range []bool{false, true} {
+			roundTripSequence(c, []kind{k, k, all[c.Rng.Intn(len(all))], k}, fast)
+		}
+	}
+	for i := 0; i < rounds/4; i++ {
+		ks := make([]kind, 2+c.Rng.Intn(5))
+		for j := range ks {
+			ks[j] = all[c.Rng.Intn(len(all))]
+			if j > 0 && c.Rng.Chance(1, 3) {
+				ks[j] = ks[j-1]
+			}
+		}
+		roundTripSequence(c, ks, c.Rng.Bool())
+		if i%2000 == 1999 {
+			c.FlushModel()
+		}
+	}
 	if c.Tier == "thorough" {
 		c.LeanChecker("C01")
 	}
 	return c.Finish(
-		"wire: boundary-biased 64-bit values (2^k, 2^k±1, small, complements, random) through every free encode/decode/size function; field/packed: one field of each of the 15 scalar and 13 packed kinds written into a buffer of exactly the predicted size and read back in safe or fast mode at field numbers {1,2,15,16,2047,2048,2^18±,2^21±,2^26±,2^28,2^29-2,2^29-1} and random ones; non-trivial = distinct case whose encoding is longer than 2 bytes",
+		"wire: boundary-biased 64-bit values (2^k, 2^k±1, small, complements, random) through every free encode/decode/size function; field/packed: one field of each of the 15 scalar and 13 packed kinds written into a buffer of exactly the predicted size and read back in safe or fast mode at field numbers {1,2,15,16,2047,2048,2^18±,2^21±,2^26±,2^28,2^29-2,2^29-1} and random ones; sequence: 2-6 fields (kinds repeat) written by one encoder into a buffer of the predicted total size and read back by one decoder, every returned slice/string re-read after the later calls; non-trivial = distinct case whose encoding is longer than 2 bytes",
 		append(trustedCommon, "Go float32/float64 argument passing preserves NaN payloads (exercised, not modelled)"),
 		[]string{"model of encoder.go/decoder.go/sizeof.go is hand-written; tied by facts F1/F2 and by the correspondence streams of this run"})
 }
